@@ -19,21 +19,25 @@
      pool->votor  ... which the pool never emits (C10_pool_parent_ready_only_on_window_start), hence
                   C10_votor_never_panics_on_pool_output for every interleaving of pool output with arbitrary
                   blockstore events and time-outs.
-     u64          C10_votor_u64_never_panics_below_last_window / C10_votor_last_window_refuted: with u64 slot arithmetic
-                  the only additional panic is try_skip_window on the last leader window of the u64 range - REACHABLE
-                  (defect, see below).
-     producer     C10_producer_safe_within_limit (no underflow, slice fits the shredder, for every stream of
-                  transactions within MAX_TRANSACTION_SIZE), C10_producer_panics_exactly_when (characterisation),
-                  C10_producer_oversize_refuted / C10_producer_flood_refuted (defect), C10_handover_panics_iff /
-                  C10_handover_equivocation_refuted (defect), and the two proposed repairs are total.
+     u64          C10_votor_u64_never_panics: with u64 slot arithmetic (current tree) Votor never panics for ANY event
+                  sequence whose ParentReady events name window starts - every slot up to 2^64-1 included
+                  (C10_votor_u64_window_slots_fit); the pinned arithmetic panicked exactly on the last leader window
+                  (C10_pinned_votor_u64_panics_iff, C10_pinned_votor_last_window_refuted).
+     producer     C10_producer_never_panics: for EVERY transaction stream (payloads of any length, beyond the MTU too), with
+                  or without parent, no underflow and the slice fits MAX_DATA_PER_SLICE (so Shredder::shred accepts it);
+                  C10_producer_contents: it contains exactly the in-limit transactions among those consumed;
+                  C10_handover_total: apply_parent_ready never panics. Pinned tree: C10_pinned_producer_safe_within_limit,
+                  C10_pinned_producer_panics_exactly_when, C10_pinned_producer_oversize_refuted / _flood_refuted,
+                  C10_pinned_handover_panics_iff / C10_pinned_handover_equivocation_refuted.
      pool         C10_pool_refusals_harmless: messages refused by the window check change nothing and never panic.
    Cited from other properties: wire decoders are total functions into option (C19), vote / certificate validation is
    total and guards the signer index before indexing (C09), the shredder's layout / size guards (C11).
 
-   Defects of /repo (each with a refuted-lemma witness above, reproduced on the real code by bin/check C10):
-     (1) oversize transaction -> leader's block producer panics      (block_producer.rs produce_slice_payload)
-     (2) two Byzantine-signed shreds for the last u64 window -> Votor panics   (slot.rs slots_in_window)
-     (3) equivocating leader before a handover -> next leader's block producer panics (block_producer.rs apply_parent_ready)
+   Defects found by this property, all repaired in /repo (the models follow the repaired code; the pinned variants stay
+   behind parameters and their refutations are kept as C10_pinned_..._refuted):
+     (1) 7f57b91  oversize transaction -> leader's block producer panicked          (produce_slice_payload)
+     (2) c169de0  two Byzantine-signed shreds for the last u64 window -> Votor panicked      (Slot::slots_in_window)
+     (3) 8dab5dc  equivocating leader before a handover -> next leader's block producer panicked (apply_parent_ready)
 
    NOT a theorem (validated by the correspondence / oracle of bin/check C10 only, or not covered):
      - the pool's "consensus safety violation" assertions and add_parent's same-block-two-parents assertion are
@@ -114,67 +118,100 @@ Theorem C10_votor_never_panics_on_pool_output : forall e own ins, node_input e i
 Proof. exact votor_never_panics_on_pool_output. Qed.
 
 (* ---------------- u64 slots ---------------- *)
+Theorem C10_votor_u64_is_votor : forall own t i, votor_step64 own t i = votor_step own t i.
+Proof. exact votor_step64_is_votor_step. Qed.
+
+Theorem C10_votor_u64_window_slots_fit : forall s s',
+  s <= U64_MAX -> In s' (seqN (window_first s) (N.to_nat SLOTS_PER_WINDOW)) -> s' <= U64_MAX.
+Proof. exact window_slots_fit_u64. Qed.
+
+Theorem C10_votor_u64_never_panics : forall own ins,
+  forallb parent_ready_on_window_start ins = true ->
+  vt_panicked (votor_run64 own ins) = false.
+Proof. exact votor64_never_panics. Qed.
+
 Theorem C10_votor_u64_panics_iff : forall own t i, vinv t -> vt_panicked t = false ->
-  snd (votor_step64 own t i) =
-  (bad_parent_ready t i || match skip_window_target t i with Some s => window_overflows s | None => false end).
+  snd (votor_step64 own t i) = bad_parent_ready t i.
 Proof. exact votor_step64_panics_iff. Qed.
 
-Theorem C10_votor_u64_never_panics_below_last_window : forall own ins,
-  forallb parent_ready_on_window_start ins = true -> forallb below_last_window ins = true ->
-  vt_panicked (votor_run64 own ins) = false.
-Proof. exact votor64_never_panics_below_last_window. Qed.
+Theorem C10_pinned_votor_u64_panics_iff : forall own t i, vinv t -> vt_panicked t = false ->
+  snd (votor_step64_pinned own t i) =
+  (bad_parent_ready t i || match skip_window_target t i with Some s => window_overflows s | None => false end).
+Proof. exact votor_step64_pinned_panics_iff. Qed.
 
-Theorem C10_votor_last_window_refuted :
-  snd (votor_step64 0 votor_init (VInvalidBlock U64_MAX)) = true /\
-  snd (votor_step64 0 votor_init (VInvalidBlock (U64_MAX - 3))) = true /\
-  snd (votor_step64 0 votor_init (VInvalidBlock (U64_MAX - 4))) = false.
-Proof. exact votor64_last_window_refuted. Qed.
+Theorem C10_pinned_votor_u64_never_panics_below_last_window : forall own ins,
+  forallb parent_ready_on_window_start ins = true -> forallb below_last_window ins = true ->
+  vt_panicked (votor_run64_pinned own ins) = false.
+Proof. exact votor64_pinned_never_panics_below_last_window. Qed.
+
+Theorem C10_pinned_votor_last_window_refuted :
+  snd (votor_step64_pinned 0 votor_init (VInvalidBlock U64_MAX)) = true /\
+  snd (votor_step64_pinned 0 votor_init (VInvalidBlock (U64_MAX - 3))) = true /\
+  snd (votor_step64_pinned 0 votor_init (VInvalidBlock (U64_MAX - 4))) = false /\
+  snd (votor_step64 0 votor_init (VInvalidBlock U64_MAX)) = false /\
+  snd (fst (votor_step64 0 votor_init (VInvalidBlock U64_MAX))) =
+    map (fun s => VBVote (mkVote s KSkip 0)) [U64_MAX - 3; U64_MAX - 2; U64_MAX - 1; U64_MAX].
+Proof. exact votor64_pinned_last_window_refuted. Qed.
 
 (* ---------------- block producer ---------------- *)
-Theorem C10_producer_safe_within_limit : forall hp txs,
-  Forall (fun p => p <= MAX_TRANSACTION_SIZE) txs ->
+Theorem C10_producer_never_panics : forall hp txs,
   match produce_slice hp txs with
   | PPanic => False
-  | PFull l _ | PTimeout l => l <= buffer_space hp /\ shred_accepts hp l = true
+  | PFull l _ _ | PTimeout l _ _ => l <= buffer_space hp /\ slice_payload_len hp l <= MAX_DATA_PER_SLICE /\ shred_accepts hp l = true
   end.
-Proof. exact produce_slice_safe. Qed.
+Proof. exact produce_slice_never_panics. Qed.
 
-Theorem C10_producer_panic_needs_oversize : forall hp txs,
-  produce_slice hp txs = PPanic -> Exists (fun p => MAX_TRANSACTION_SIZE < p) txs.
-Proof. exact produce_slice_panic_needs_oversize. Qed.
+Theorem C10_producer_contents : forall hp txs,
+  exists (full : bool) (k : N),
+    produce_slice hp txs = (if full then PFull else PTimeout) (8 + total (accepted k txs)) (N.of_nat (length (accepted k txs))) k /\
+    k <= N.of_nat (length txs) /\ (full = false -> k = N.of_nat (length txs)) /\
+    (full = true -> buffer_space hp - (8 + total (accepted k txs)) < MAX_TRANSACTION_SIZE + 8).
+Proof. exact produce_slice_contents. Qed.
 
-Theorem C10_producer_panics_exactly_when : forall space txs len used,
-  produce space len used txs = PPanic <->
+Theorem C10_pinned_producer_safe_within_limit : forall hp txs,
+  Forall (fun p => p <= MAX_TRANSACTION_SIZE) txs ->
+  match produce_slice_pinned hp txs with
+  | PPanic => False
+  | PFull l _ _ | PTimeout l _ _ => l <= buffer_space hp /\ shred_accepts hp l = true
+  end.
+Proof. exact produce_slice_pinned_safe. Qed.
+
+Theorem C10_pinned_producer_panic_needs_oversize : forall hp txs,
+  produce_slice_pinned hp txs = PPanic -> Exists (fun p => MAX_TRANSACTION_SIZE < p) txs.
+Proof. exact produce_slice_pinned_panic_needs_oversize. Qed.
+
+Theorem C10_pinned_producer_panics_exactly_when : forall space txs len count consumed,
+  produce_gen false space len count consumed txs = PPanic <->
   exists pre p post, txs = pre ++ p :: post /\
     space < len + total pre + tx_encoded p /\
     (forall k, (k <= length pre)%nat -> k <> O ->
        MAX_TRANSACTION_SIZE + 8 <= space - (len + total (firstn k pre)) /\ len + total (firstn k pre) <= space).
-Proof. exact produce_panics_iff. Qed.
+Proof. exact produce_pinned_panics_iff. Qed.
 
-Theorem C10_producer_oversize_refuted :
+Theorem C10_pinned_producer_oversize_refuted :
   Forall (fun p => tx_encoded p <= MTU_BYTES) oversize_witness /\
-  produce_slice false oversize_witness = PPanic /\ produce_slice true oversize_witness = PPanic.
-Proof. exact produce_slice_oversize_refuted. Qed.
+  produce_slice_pinned false oversize_witness = PPanic /\ produce_slice_pinned true oversize_witness = PPanic /\
+  produce_slice false oversize_witness = PTimeout 31728 61 62.
+Proof. exact produce_slice_pinned_oversize_refuted. Qed.
 
-Theorem C10_producer_flood_refuted : forall hp, produce_slice hp (repeat (MTU_BYTES - 8) 22) = PPanic.
-Proof. exact produce_slice_flood_refuted. Qed.
+Theorem C10_pinned_producer_flood_refuted : forall hp,
+  produce_slice_pinned hp (repeat (MTU_BYTES - 8) 22) = PPanic /\ produce_slice hp (repeat (MTU_BYTES - 8) 22) = PTimeout 8 0 22.
+Proof. exact produce_slice_pinned_flood_refuted. Qed.
 
-Theorem C10_producer_fix_is_total : forall hp txs,
-  match produce_slice_fixed hp txs with
-  | PPanic => False
-  | PFull l _ | PTimeout l => l <= buffer_space hp /\ shred_accepts hp l = true
-  end.
-Proof. exact produce_slice_fixed_total. Qed.
+Theorem C10_handover_total : forall o r, apply_parent_ready o r <> AprPanic.
+Proof. exact apply_parent_ready_total. Qed.
 
-Theorem C10_handover_panics_iff : forall o r,
-  apply_parent_ready o r = AprPanic <-> (fst r = fst o /\ snd r <> snd o).
-Proof. exact apply_parent_ready_panics_iff. Qed.
+Theorem C10_handover_spec : forall o r,
+  apply_parent_ready o r = if snd r =? snd o then AprKeep else AprSwitch r.
+Proof. exact apply_parent_ready_spec. Qed.
 
-Theorem C10_handover_equivocation_refuted : apply_parent_ready (11, 1) (11, 2) = AprPanic.
-Proof. exact apply_parent_ready_equivocation_refuted. Qed.
+Theorem C10_pinned_handover_panics_iff : forall o r,
+  apply_parent_ready_pinned o r = AprPanic <-> (fst r = fst o /\ snd r <> snd o).
+Proof. exact apply_parent_ready_pinned_panics_iff. Qed.
 
-Theorem C10_handover_fix_is_total : forall o r, apply_parent_ready_fixed o r <> AprPanic.
-Proof. exact apply_parent_ready_fixed_total. Qed.
+Theorem C10_pinned_handover_equivocation_refuted :
+  apply_parent_ready_pinned (11, 1) (11, 2) = AprPanic /\ apply_parent_ready (11, 1) (11, 2) = AprSwitch (11, 2).
+Proof. exact apply_parent_ready_pinned_equivocation_refuted. Qed.
 
 (* ---------------- pool refusals ---------------- *)
 Theorem C10_pool_refusals_harmless : forall e p,
@@ -203,7 +240,7 @@ Example C10_nonvacuous :
    length (snd (fst (votor_step 0 votor_init (VInvalidBlock 6)))),
    (* the producer fills a slice with maximal in-limit transactions and stops *)
    produce_slice false (repeat 512 100))
-  = (true, true, false, 4%nat, PFull 32248 62).
+  = (true, true, false, 4%nat, PFull 32248 62 62).
 Proof. vm_compute. reflexivity. Qed.
 
 Print Assumptions C10_blockstore_never_panics.
@@ -218,17 +255,23 @@ Print Assumptions C10_votor_never_panics.
 Print Assumptions C10_votor_misaligned_parent_ready_refuted.
 Print Assumptions C10_pool_parent_ready_only_on_window_start.
 Print Assumptions C10_votor_never_panics_on_pool_output.
+Print Assumptions C10_votor_u64_is_votor.
+Print Assumptions C10_votor_u64_window_slots_fit.
+Print Assumptions C10_votor_u64_never_panics.
 Print Assumptions C10_votor_u64_panics_iff.
-Print Assumptions C10_votor_u64_never_panics_below_last_window.
-Print Assumptions C10_votor_last_window_refuted.
-Print Assumptions C10_producer_safe_within_limit.
-Print Assumptions C10_producer_panic_needs_oversize.
-Print Assumptions C10_producer_panics_exactly_when.
-Print Assumptions C10_producer_oversize_refuted.
-Print Assumptions C10_producer_flood_refuted.
-Print Assumptions C10_producer_fix_is_total.
-Print Assumptions C10_handover_panics_iff.
-Print Assumptions C10_handover_equivocation_refuted.
-Print Assumptions C10_handover_fix_is_total.
+Print Assumptions C10_pinned_votor_u64_panics_iff.
+Print Assumptions C10_pinned_votor_u64_never_panics_below_last_window.
+Print Assumptions C10_pinned_votor_last_window_refuted.
+Print Assumptions C10_producer_never_panics.
+Print Assumptions C10_producer_contents.
+Print Assumptions C10_pinned_producer_safe_within_limit.
+Print Assumptions C10_pinned_producer_panic_needs_oversize.
+Print Assumptions C10_pinned_producer_panics_exactly_when.
+Print Assumptions C10_pinned_producer_oversize_refuted.
+Print Assumptions C10_pinned_producer_flood_refuted.
+Print Assumptions C10_handover_total.
+Print Assumptions C10_handover_spec.
+Print Assumptions C10_pinned_handover_panics_iff.
+Print Assumptions C10_pinned_handover_equivocation_refuted.
 Print Assumptions C10_pool_refusals_harmless.
 Print Assumptions C10_nonvacuous.
